@@ -53,7 +53,9 @@ ClaimRuleOK(s, c) == (Needs(s) => c # "") /\ (Clears(s) => c = "")
 (* only text operations the core needs are "is blank" and "trim"; both are *)
 (* finite tables shared with the drivers (ErgoText refines them).          *)
 (***************************************************************************)
-BlankStrings == {"", " ", "  ", "\t", " \n "}
+\* ("UBLANK" stands for a string of Unicode-only whitespace, NBSP + U+3000, which the
+\* driver substitutes: TLA+ strings are ASCII)
+BlankStrings == {"", " ", "  ", "\t", " \n ", "UBLANK"}
 Blank(s) == s \in BlankStrings
 TrimTable == [ x \in {" T1 ", "  padded  ", "\tT2\n"} |->
                  CASE x = " T1 " -> "T1" [] x = "  padded  " -> "padded" [] OTHER -> "T2" ]
